@@ -20,6 +20,7 @@ PROPS["C05"] = dict(
         run("tree", "c05_rc", "tree_program", "rc", dict(procs=8, cases=15000), dict(procs=16, cases=120000)),
         run("threads", "c05_rc", "tree_threads", "rc", dict(procs=3, cases=2500), dict(procs=6, cases=20000), deterministic=False),
         run("threads-tsan", "c05_tsan", "tree_threads", "rc", dict(procs=2, cases=250), dict(procs=4, cases=4000), deterministic=False, replay_bin="c05_tsan"),
+        run("thread-lifetimes", "c05_rc", "thread_lifetimes", "rc", dict(procs=1, cases=300), dict(procs=2, cases=3000)),
         run("fork", "c05_rc", "fork_ids", "rc", dict(procs=1, cases=150), dict(procs=2, cases=1500)),
     ],
 )
